@@ -270,7 +270,7 @@ HAND = [
 
 
 def constructed(rng, tier):
-    n_each = 2 if tier == "quick" else 12
+    n_each = 1 if tier == "quick" else 10
     out = []
     for fen, focus, _note in HAND:
         out.append((fen, list(focus)))
@@ -370,18 +370,15 @@ def gen(rng, tier, positions):
     for fen in fens:
         legal = list(positions.get(fen, []))
         want = list(focus.get(fen, []))
-        if fen in focus:
-            pick = legal                           # constructed position: every legal move
-        else:
-            pick = legal if len(legal) <= per_pos else rng.sample(legal, per_pos)
+        pick = legal if len(legal) <= per_pos else rng.sample(legal, per_pos)
         moves = want + [m for m in pick if m not in want]
         for u in moves:
             cases.append(fen + "\tpgn\t" + u)
         # reader: variants of some of the moves, and garbage
-        sub = moves if fen in focus else (moves if len(moves) <= 3 else rng.sample(moves, 3))
+        sub = want[:4] + (pick if len(pick) <= 2 else rng.sample(pick, 2))
         for u in sub:
-            cases += reader_cases(rng, fen, u, 10 if quick else 30)
-        for t in rng.sample(GARBAGE, 2 if quick else 8):
+            cases += reader_cases(rng, fen, u, 6 if quick else 24)
+        for t in rng.sample(GARBAGE, 1 if quick else 6):
             cases.append(fen + "\tsan\t" + esc(t))
     seen, out = set(), []
     for c in cases:
